@@ -128,13 +128,14 @@ pub fn c01_strategy() -> BoxedStrategy<Case> {
         burst_kinds: vec![0, 1, 4],
         burst_n: (3, 20),
         abort: 1,
+        abandon_pull: 1,
         ..W::default()
     };
     arb_case(w, 1..=2, 0..=4, 6..40, 2)
 }
 
 pub fn c02_strategy() -> BoxedStrategy<Case> {
-    let w = W { nt: 1, ns: 2, p_async: 0.15, ack: 12, nack: 3, modify: 2, advance: 8, create_sub: 0, delete_sub: 0, create_topic: 0, delete_topic: 0, bad_refs: 3, stream_send: 4, ..W::default() };
+    let w = W { nt: 1, ns: 2, p_async: 0.15, long_ack: 1, ack: 12, nack: 3, modify: 2, advance: 8, create_sub: 0, delete_sub: 0, create_topic: 0, delete_topic: 0, bad_refs: 3, stream_send: 4, ..W::default() };
     arb_case(w, 1..=1, 2..=2, 6..36, 0)
 }
 
@@ -155,6 +156,7 @@ pub fn c03_strategy() -> BoxedStrategy<Case> {
         burst_kinds: vec![0, 1],
         burst_n: (2, 8),
         abort: 3,
+        abandon_pull: 3,
         stream_drop: 1,
         create_sub: 0,
         delete_sub: 0,
@@ -201,6 +203,8 @@ pub fn deadline_strategy(with_modify: bool) -> BoxedStrategy<Case> {
         wm => (refs.clone(), mod_secs.clone()).prop_map(move |(refs, secs)| Op::Modify { s: s0, refs, secs, a: false }),
         (wm + 1) / 2 => (vec(arb_ref(1), 0..2), vec((arb_ref_with_malformed(), mod_secs.clone()), 1..4)).prop_map(|(acks, mods)| Op::StreamSend { k: 0, acks, mods }),
         2 => Just(Op::PullAll { s: s0 }),
+        (wm / 4).max(1) => (arb_long_refs(true), mod_secs.clone()).prop_map(move |(refs, secs)| Op::Modify { s: s0, refs, secs, a: false }),
+        1 => arb_long_refs(false).prop_map(move |refs| Op::Ack { s: s0, refs, a: false }),
     ];
     (any::<u64>(), arb_phase(), dl, vec(step, 4..28))
         .prop_map(move |(sched_seed, phase_us, dl, body)| {
@@ -294,6 +298,7 @@ pub fn c08_strategy() -> BoxedStrategy<Case> {
         ns: 3,
         p_async: 0.6,
         publish: 14,
+        publish_many: 3,
         pull_ri: 8,
         pull_block: 4,
         stream_open: 2,
@@ -401,7 +406,10 @@ pub fn c11_strategy() -> BoxedStrategy<Case> {
     // yield point between manager insert and attach is point index 0
     (arb_case(w, 1..=2, 0..=3, 6..36, 0), vec((0u8..4, 1u8..6), 0..3))
         .prop_map(|(mut c, pts)| {
-            c.points = pts.into_iter().map(|(nth, yields)| PointSpec { point: 0, nth, yields }).collect();
+            // yield points around the two cross-actor steps of create and delete:
+            // 0 create_sub.before_attach, 2 topic.send.attach, 3 topic.send.remove, 4 topic.send.delete, 10 sub.send.delete
+            let which = [0u8, 0, 3, 3, 2, 4, 10];
+            c.points = pts.into_iter().enumerate().map(|(i, (nth, yields))| PointSpec { point: which[(i + nth as usize + yields as usize) % which.len()], nth, yields }).collect();
             c
         })
         .boxed()
@@ -425,8 +433,8 @@ pub fn c12_strategy() -> BoxedStrategy<Case> {
         3 => (0u8..7).prop_map(|n| Op::Tick { n }),
         1 => (vec(arb_ref(1), 0..2), vec((arb_ref(1), Just(30i32)), 0..2)).prop_map(|(acks, mods)| Op::StreamSend { k: 0, acks, mods }),
     ];
-    (any::<u64>(), any::<u64>(), arb_points(3), any::<bool>(), vec(waiter, 0..6), any::<bool>(), vec(racer.clone(), 0..4), any::<bool>(), vec(racer, 0..3))
-        .prop_map(move |(sched_seed, fanout_seed, points, prefill, waiters, settle_first, racers, async_del, after)| {
+    (any::<u64>(), any::<u64>(), arb_points(3), any::<bool>(), vec(waiter, 0..6), any::<bool>(), vec(racer.clone(), 0..4), any::<bool>(), vec(racer, 0..3), proptest::option::weighted(0.3, 0u8..6))
+        .prop_map(move |(sched_seed, fanout_seed, points, prefill, waiters, settle_first, racers, async_del, after, abandon)| {
             let mut ops = vec![Op::CreateTopic { t: t0, a: false }, Op::CreateSub { s: s0, t: t0, dl: 10, push: 0, a: false }];
             if prefill {
                 ops.push(Op::Publish { t: t0, n: 2, payload: Payload::plain(), a: false });
@@ -437,7 +445,18 @@ pub fn c12_strategy() -> BoxedStrategy<Case> {
                 ops.push(Op::Settle);
             }
             ops.extend(racers);
-            ops.push(Op::DeleteSub { s: s0, a: async_del });
+            match abandon {
+                // the deleting client goes away after a few scheduler turns and (like any client
+                // that did not get an answer) asks again
+                Some(ticks) => {
+                    ops.push(Op::DeleteSub { s: s0, a: true });
+                    ops.push(Op::Tick { n: ticks });
+                    ops.push(Op::Abort { c: 0 });
+                    ops.push(Op::Settle);
+                    ops.push(Op::DeleteSub { s: s0, a: false });
+                }
+                None => ops.push(Op::DeleteSub { s: s0, a: async_del }),
+            }
             ops.extend(after);
             ops.push(Op::Settle);
             Case { sched_seed, phase_us: 0, fanout_seed, points, ops }
@@ -480,6 +499,42 @@ pub fn c15_strategy(big: bool) -> BoxedStrategy<Case> {
             Case { sched_seed, phase_us: 0, fanout_seed: 0, points: vec![], ops }
         })
         .boxed()
+}
+
+pub fn c15_wrap_cases(tier: Tier) -> Vec<Case> {
+    let s0 = S { p: 0, i: 0 };
+    let t0 = T { p: 0, i: 0 };
+    let backlogs: &[u32] = match tier {
+        Tier::Quick => &[65_537, 65_541, 131_073],
+        Tier::Thorough => &[65_535, 65_536, 65_537, 65_541, 66_000, 66_536, 131_072, 131_073, 131_100],
+    };
+    let maxes: &[i32] = match tier {
+        Tier::Quick => &[10, 1000],
+        Tier::Thorough => &[1, 10, 999, 1000, 1001, 65_535],
+    };
+    let mut v = Vec::new();
+    for b in backlogs {
+        for m in maxes {
+            v.push(Case {
+                sched_seed: *b as u64,
+                phase_us: 0,
+                fanout_seed: 0,
+                points: vec![],
+                ops: vec![
+                    Op::CreateTopic { t: t0, a: false },
+                    Op::CreateSub { s: s0, t: t0, dl: 10, push: 0, a: false },
+                    Op::PublishMany { t: t0, n: *b, a: false },
+                    Op::Pull { s: s0, max: *m, ri: true, a: false },
+                    Op::Pull { s: s0, max: *m, ri: false, a: true },
+                    Op::Settle,
+                    Op::StreamOpen { s: s0, max_out: *m },
+                    Op::Settle,
+                    Op::StreamDrop { k: 0 },
+                ],
+            });
+        }
+    }
+    v
 }
 
 // ------------------------------------------------------------------------------------
@@ -615,6 +670,8 @@ pub fn run_worker(ctx: &WorkerCtx) -> WorkerOut {
         "C15" => {
             let nt = |_: &Case, r: &Report| r.feat.backlog_over_limit || r.feat.big_limit || r.feat.blocking_pull_waited;
             run_sim_stage(ctx, SimStage { name: "limits", strategy: c15_strategy(false), cfg: sim_cfg(false), cases: ctx.share(scale(t, 3_000, 40_000)), nontrivial: &nt, classes: &std_classes, extra: None }, &mut out);
+            // the 16-bit wrap of the backlog length: a few very large backlogs, fixed cases
+            run_case_list(ctx, "limits_wrap", c15_wrap_cases(t), &RunCfg { horizon: false, drain: false, qp_each_op: false }, &mut out);
             if t == Tier::Thorough {
                 run_sim_stage(ctx, SimStage { name: "limits_big", strategy: c15_strategy(true), cfg: sim_cfg(false), cases: ctx.share(scale(t, 0, 400)), nontrivial: &nt, classes: &std_classes, extra: None }, &mut out);
             }
@@ -625,7 +682,12 @@ pub fn run_worker(ctx: &WorkerCtx) -> WorkerOut {
             let nt = |c: &Case, _: &Report| crate::c17::has_mixed_rejection(c);
             run_sim_stage(ctx, SimStage { name: "malformed", strategy: crate::c17::c17_strategy(), cfg: sim_cfg(false), cases: ctx.share(scale(t, 8_000, 200_000)), nontrivial: &nt, classes: &crate::c17::c17_classes, extra: Some(&crate::c17::c17_extra) }, &mut out);
         }
-        "C18" => crate::pure::names_check(ctx, &mut out),
+        "C18" => {
+            crate::pure::names_check(ctx, &mut out);
+            // the same property at the RPC level: variants of existing names sent through gRPC
+            let nt = |c: &Case, _: &Report| c.ops.iter().any(|o| matches!(o, Op::Raw { .. }));
+            run_sim_stage(ctx, SimStage { name: "rpc_names", strategy: crate::c17::c18_rpc_strategy(), cfg: RunCfg { horizon: false, drain: false, qp_each_op: false }, cases: ctx.share(scale(t, 3_000, 60_000)), nontrivial: &nt, classes: &no_classes, extra: None }, &mut out);
+        }
         "C19" => crate::flow::flow_check(ctx, &mut out),
         other => {
             out.notes.push(format!("no worker for {}", other));
